@@ -3,51 +3,26 @@
 //!   conform run <engine> <cases.ndjson> <obs.ndjson>
 //!   conform child <engine> <cases.ndjson> <obs.ndjson>   (one case per process, wall-clock limit)
 //!   conform one <engine>                                  (stdin: one case, stdout: observations)
+#[path = "../../harness/src/util.rs"]
 mod util;
+#[path = "../../harness/src/srv.rs"]
 mod srv;
-mod e_subs;
-mod e_revise;
-mod e_filter;
-mod e_aspace;
-mod e_nodemgmt;
-mod e_handshake;
-mod e_renew;
+mod common;
+mod e_framing;
+mod e_sendbuf;
+mod e_seqnum;
 
 use serde_json::Value;
 use std::io::{BufRead, BufReader, BufWriter, Write};
 
-/// Observation sink: buffered in `run` mode, streamed line by line in `one` mode (so that an abort of the
-/// process loses nothing that was already observed).
-pub struct Obs {
-    pub buf: Vec<Value>,
-    stream: bool,
-}
-
-impl Obs {
-    pub fn new(stream: bool) -> Obs {
-        Obs { buf: Vec::new(), stream }
-    }
-    pub fn push(&mut self, v: Value) {
-        if self.stream {
-            let so = std::io::stdout();
-            let mut so = so.lock();
-            let _ = writeln!(so, "{}", v);
-            let _ = so.flush();
-        } else {
-            self.buf.push(v);
-        }
-    }
-}
+pub type Obs = Vec<Value>;
 
 fn run_case(engine: &str, case: &Value, out: &mut Obs) {
     match engine {
-        "subs" => e_subs::run_case(case, out),
-        "revise" => e_revise::run_case(case, out),
-        "filter" => e_filter::run_case(case, out),
-        "aspace" => e_aspace::run_case(case, out),
-        "nodemgmt" => e_nodemgmt::run_case(case, out),
-        "handshake" => e_handshake::run_case(case, out),
-        "renew" => e_renew::run_case(case, out),
+        "frcat" => e_framing::catalog(case, out),
+        "framing" => e_framing::run_case(case, out),
+        "sendbuf" => e_sendbuf::run_case(case, out),
+        "seqnum" => e_seqnum::run_case(case, out),
         _ => {
             eprintln!("unknown engine {}", engine);
             std::process::exit(2);
@@ -74,9 +49,9 @@ fn main() {
                     continue;
                 }
                 let case: Value = serde_json::from_str(&line).expect("case json");
-                let mut obs = Obs::new(false);
+                let mut obs = Vec::new();
                 run_case(engine, &case, &mut obs);
-                for o in obs.buf {
+                for o in obs {
                     writeln!(outp, "{}", o).unwrap();
                 }
             }
@@ -85,8 +60,13 @@ fn main() {
             let mut s = String::new();
             std::io::stdin().read_line(&mut s).unwrap();
             let case: Value = serde_json::from_str(&s).expect("case json");
-            let mut obs = Obs::new(true);
+            let mut obs = Vec::new();
             run_case(engine, &case, &mut obs);
+            let so = std::io::stdout();
+            let mut so = so.lock();
+            for o in obs {
+                writeln!(so, "{}", o).unwrap();
+            }
         }
         "child" => {
             // one process per case; abort / timeout become observations
@@ -143,34 +123,14 @@ fn main() {
                 };
                 let text = reader.join().unwrap_or_default();
                 let mut n = 0;
-                let mut last_st = case.get("st0").cloned().unwrap_or(Value::Null);
                 for l in text.lines() {
-                    if let Ok(v) = serde_json::from_str::<Value>(l) {
-                        if let Some(st) = v.get("st") {
-                            last_st = st.clone();
-                        }
+                    if serde_json::from_str::<Value>(l).is_ok() {
                         writeln!(outp, "{}", l).unwrap();
                         n += 1;
                     }
                 }
                 if let Some(f) = fail {
-                    // the step that did not return: the call of the case that was being executed
-                    let mut o = case
-                        .get("steps")
-                        .and_then(|s| s.as_array())
-                        .and_then(|s| s.get(n))
-                        .cloned()
-                        .unwrap_or_else(|| serde_json::json!({"ev": "process"}));
-                    if let Some(obj) = o.as_object_mut() {
-                        obj.insert("case".into(), cid.clone());
-                        obj.insert("i".into(), serde_json::json!(n + 1));
-                        obj.insert("fail".into(), serde_json::json!(f));
-                        obj.insert("site".into(), serde_json::json!(f));
-                        obj.insert("found".into(), serde_json::json!(false));
-                        obj.insert("pre".into(), serde_json::json!([]));
-                        obj.insert("out".into(), serde_json::json!([]));
-                        obj.insert("st".into(), last_st.clone());
-                    }
+                    let o = serde_json::json!({"case": cid, "i": n + 1, "ev": "process", "fail": f, "site": f});
                     writeln!(outp, "{}", o).unwrap();
                 }
             }
